@@ -16,10 +16,12 @@ import (
 	"bytes"
 	"errors"
 	"fmt"
+	"math/rand"
 	"net"
 	"os"
 	"runtime"
 	"strconv"
+	"strings"
 	"sync"
 	"testing"
 	"time"
@@ -44,7 +46,7 @@ func (r *c38Rec) emit(e vfRec) {
 	r.mu.Unlock()
 }
 
-var c38ReqLine = []byte("GET /c38/")
+var c38ReqLine = []byte(" /c38/") // request line: METHOD /c38/<id> HTTP/1.1
 
 // c38Conn is the client side of a connection: it watches the bytes the client writes.
 type c38Conn struct {
@@ -171,13 +173,21 @@ type c38Call struct {
 	deadline bool
 	viaTO    bool // DoTimeout instead of DoDeadline
 	timeout  time.Duration
-	delay    time.Duration
+	delay    time.Duration // pause before the call
+	bigBody  int           // > 0: POST with a body of that many bytes
 }
 
+// c38Cfg: every caller is a goroutine that performs its calls one after the other (a call
+// that timed out is followed by further calls from the same goroutine).
 type c38Cfg struct {
 	p, maxConns int
 	modes       []c38Mode
-	calls       []c38Call
+	callers     [][]c38Call
+	name        string
+}
+
+func (c c38Cfg) String() string {
+	return fmt.Sprintf("%s p=%d conns=%d mode=%s", c.name, c.p, c.maxConns, c.modes[0].kind)
 }
 
 const c38Slack = 1500 * time.Millisecond
@@ -195,68 +205,136 @@ func c38Class(err error) string {
 	}
 }
 
+type c38Out struct {
+	class    string
+	late     time.Duration
+	started  bool
+	returned bool
+	deadline bool
+	timeout  time.Duration
+	startAt  time.Time
+	body     string
+	err      string
+}
+
+// c38DoCall performs one call and classifies its result; a panic inside the client call is a
+// result of its own.
+func c38DoCall(pcl *PipelineClient, rec *c38Rec, id int, cl c38Call, outs []c38Out) {
+	var req Request
+	var resp Response
+	req.SetRequestURI(fmt.Sprintf("http://pc.test/c38/%d", id))
+	if cl.bigBody > 0 {
+		req.Header.SetMethod(MethodPost)
+		req.SetBody(bytes.Repeat([]byte{'b'}, cl.bigBody))
+	}
+	k := "do"
+	if cl.deadline {
+		k = "deadline"
+	}
+	rec.mu.Lock()
+	rec.evs = append(rec.evs, vfRec{"ev": "start", "id": id, "k": k})
+	outs[id-1] = c38Out{started: true, deadline: cl.deadline, timeout: cl.timeout, startAt: time.Now()}
+	rec.mu.Unlock()
+	var err error
+	dl := time.Now().Add(cl.timeout)
+	func() {
+		defer func() {
+			if p := recover(); p != nil {
+				err = fmt.Errorf("PANIC: %v", p)
+			}
+		}()
+		switch {
+		case !cl.deadline:
+			err = pcl.Do(&req, &resp)
+		case cl.viaTO:
+			err = pcl.DoTimeout(&req, &resp, cl.timeout)
+		default:
+			err = pcl.DoDeadline(&req, &resp, dl)
+		}
+	}()
+	ret := time.Now()
+	rec.mu.Lock()
+	o := outs[id-1]
+	o.class, o.returned = c38Class(err), true
+	if err != nil {
+		o.err = err.Error()
+		if strings.HasPrefix(o.err, "PANIC") {
+			o.class = "panic"
+		}
+	} else {
+		o.body = string(resp.Body())
+	}
+	if cl.deadline {
+		o.late = ret.Sub(dl)
+	}
+	rec.evs = append(rec.evs, vfRec{"ev": "ret", "id": id, "r": o.class})
+	outs[id-1] = o
+	rec.mu.Unlock()
+}
+
+// c38Judge applies the direct checks to the calls that have returned.
+func c38Judge(cfg c38Cfg, rec *c38Rec, outs []c38Out, stats map[string]int) (key, detail string) {
+	for i, o := range outs {
+		if !o.returned {
+			continue
+		}
+		stats["ret_"+o.class]++
+		id := i + 1
+		if o.class == "panic" {
+			return "panic " + cfg.String(), fmt.Sprintf("call %d panicked: %s", id, o.err)
+		}
+		if o.deadline && o.late > c38Slack {
+			return fmt.Sprintf("late %s class=%s", cfg, o.class),
+				fmt.Sprintf("deadline call %d returned %v after its deadline (timeout %v, slack %v) with %s %q", id, o.late, o.timeout, c38Slack, o.class, o.err)
+		}
+		if o.class == "ok" && o.body != fmt.Sprintf("id=%d", id) {
+			return "foreign-response " + cfg.String(),
+				fmt.Sprintf("call %d returned nil with response body %q: not the response the server produced for its request", id, o.body)
+		}
+		if o.class == "overflow" && (rec.txIDs[id] > 0 || rec.srvIDs[id] > 0) {
+			return "overflow-transmitted " + cfg.String(),
+				fmt.Sprintf("call %d returned ErrPipelineOverflow but its request was written %d time(s) by the client and received %d time(s) by the server", id, rec.txIDs[id], rec.srvIDs[id])
+		}
+	}
+	return "", ""
+}
+
 func c38RunOne(trNo int, cfg c38Cfg) (evs []vfRec, key, detail string, stats map[string]int) {
 	rec := &c38Rec{txIDs: map[int]int{}, srvIDs: map[int]int{}}
 	nw := &c38Net{rec: rec, modes: cfg.modes}
 	pcl := &PipelineClient{Addr: "pc.test:80", Dial: nw.dial, MaxConns: cfg.maxConns, MaxPendingRequests: cfg.p,
 		Logger: c38Logger{}, NoDefaultUserAgentHeader: true, MaxIdleConnDuration: 50 * time.Millisecond}
-	rec.emit(vfRec{"ev": "init", "p": cfg.p, "nids": 12, "nconns": 64, "tr": trNo})
-	type outT struct {
-		class    string
-		late     time.Duration
-		returned bool
-		body     string
-		err      string
+	rec.emit(vfRec{"ev": "init", "p": cfg.p, "nids": 32, "nconns": 64, "tr": trNo})
+	ncalls := 0
+	for _, cs := range cfg.callers {
+		ncalls += len(cs)
 	}
-	outs := make([]outT, len(cfg.calls))
+	outs := make([]c38Out, ncalls)
 	var wgD, wgO sync.WaitGroup
 	var maxWait time.Duration
-	for i, cl := range cfg.calls {
-		id := i + 1
-		wg := &wgO
-		if cl.deadline {
-			wg = &wgD
-			if w := cl.delay + cl.timeout; w > maxWait {
-				maxWait = w
+	next := 1
+	for _, cs := range cfg.callers {
+		first := next
+		next += len(cs)
+		wg := &wgD
+		var total time.Duration
+		for _, cl := range cs {
+			if !cl.deadline {
+				wg = &wgO
 			}
+			total += cl.delay + cl.timeout
+		}
+		if wg == &wgD && total > maxWait {
+			maxWait = total
 		}
 		wg.Add(1)
-		go func(id int, cl c38Call, wg *sync.WaitGroup) {
+		go func(first int, cs []c38Call, wg *sync.WaitGroup) {
 			defer wg.Done()
-			time.Sleep(cl.delay)
-			var req Request
-			var resp Response
-			req.SetRequestURI(fmt.Sprintf("http://pc.test/c38/%d", id))
-			k := "do"
-			if cl.deadline {
-				k = "deadline"
+			for k, cl := range cs {
+				time.Sleep(cl.delay)
+				c38DoCall(pcl, rec, first+k, cl, outs)
 			}
-			rec.emit(vfRec{"ev": "start", "id": id, "k": k})
-			var err error
-			dl := time.Now().Add(cl.timeout)
-			switch {
-			case !cl.deadline:
-				err = pcl.Do(&req, &resp)
-			case cl.viaTO:
-				err = pcl.DoTimeout(&req, &resp, cl.timeout)
-			default:
-				err = pcl.DoDeadline(&req, &resp, dl)
-			}
-			ret := time.Now()
-			o := outT{class: c38Class(err), returned: true}
-			if err != nil {
-				o.err = err.Error()
-			} else {
-				o.body = string(resp.Body())
-			}
-			if cl.deadline {
-				o.late = ret.Sub(dl)
-			}
-			rec.mu.Lock()
-			rec.evs = append(rec.evs, vfRec{"ev": "ret", "id": id, "r": o.class})
-			outs[id-1] = o
-			rec.mu.Unlock()
-		}(id, cl, wg)
+		}(first, cs, wg)
 	}
 	stats = map[string]int{}
 	doneD := make(chan struct{})
@@ -268,11 +346,12 @@ func c38RunOne(trNo int, cfg c38Cfg) (evs []vfRec, key, detail string, stats map
 		defer rec.mu.Unlock()
 		nw.finish()
 		for i, o := range outs {
-			if cfg.calls[i].deadline && !o.returned {
-				return nil, fmt.Sprintf("no-return p=%d conns=%d mode=%s", cfg.p, cfg.maxConns, cfg.modes[0].kind),
-					fmt.Sprintf("deadline call %d (timeout %v) had not returned %v after its deadline", i+1, cfg.calls[i].timeout, c38Slack+3*time.Second), stats
+			if o.deadline && o.started && !o.returned && time.Since(o.startAt) > o.timeout+c38Slack {
+				return nil, "no-return " + cfg.String(),
+					fmt.Sprintf("deadline call %d (timeout %v) has not returned %v after it started", i+1, o.timeout, time.Since(o.startAt).Round(time.Millisecond)), stats
 			}
 		}
+		return nil, "", "", stats // callers still busy but nobody is overdue: inconclusive
 	}
 	// let the Do calls finish: stalled connections are closed, new ones answer
 	nw.finish()
@@ -287,27 +366,11 @@ func c38RunOne(trNo int, cfg c38Cfg) (evs []vfRec, key, detail string, stats map
 			buf = buf[:runtime.Stack(buf, true)]
 			os.WriteFile(fmt.Sprintf("%s/c38_stuck_%d.txt", dir, trNo), buf, 0o644) //nolint:errcheck
 		}
-		stats[fmt.Sprintf("do_abandoned_%s_p%d_c%d", cfg.modes[0].kind, cfg.p, cfg.maxConns)]++
 	}
 	rec.mu.Lock()
 	defer rec.mu.Unlock()
-	for i, o := range outs {
-		if !o.returned {
-			continue
-		}
-		stats["ret_"+o.class]++
-		id := i + 1
-		if cfg.calls[i].deadline && o.late > c38Slack {
-			return nil, fmt.Sprintf("late p=%d conns=%d mode=%s class=%s", cfg.p, cfg.maxConns, cfg.modes[0].kind, o.class),
-				fmt.Sprintf("deadline call %d returned %v after its deadline (timeout %v, slack %v) with %s %q", id, o.late, cfg.calls[i].timeout, c38Slack, o.class, o.err), stats
-		}
-		if o.class == "ok" && o.body != fmt.Sprintf("id=%d", id) {
-			return nil, "foreign-response", fmt.Sprintf("call %d got response body %q", id, o.body), stats
-		}
-		if o.class == "overflow" && (rec.txIDs[id] > 0 || rec.srvIDs[id] > 0) {
-			return nil, fmt.Sprintf("overflow-transmitted p=%d conns=%d", cfg.p, cfg.maxConns),
-				fmt.Sprintf("call %d returned ErrPipelineOverflow but its request was written %d time(s) by the client and received %d time(s) by the server", id, rec.txIDs[id], rec.srvIDs[id]), stats
-		}
+	if key, detail = c38Judge(cfg, rec, outs, stats); key != "" {
+		return nil, key, detail, stats
 	}
 	if stats["do_calls_abandoned"] > 0 {
 		return nil, "", "", stats // incomplete log: direct checks only
@@ -324,8 +387,8 @@ func TestVerifC38Pipeline(t *testing.T) {
 	total := map[string]int{}
 	events, evals, written := 0, 0, 0
 	for i := 1; i <= ntr; i++ {
-		cfg := c38Cfg{p: 1 + rng.Intn(2), maxConns: 1 + rng.Intn(2)}
-		switch i % 6 {
+		cfg := c38Cfg{p: 1 + rng.Intn(2), maxConns: 1 + rng.Intn(2), name: "mixed"}
+		switch i % 8 {
 		case 0:
 			cfg.modes = []c38Mode{{kind: "answer"}}
 		case 1:
@@ -336,17 +399,38 @@ func TestVerifC38Pipeline(t *testing.T) {
 			cfg.modes = []c38Mode{{kind: "close", after: rng.Intn(3)}, {kind: "answer"}}
 		case 4:
 			cfg.modes = []c38Mode{{kind: "refuse"}}
-		default:
+		case 5:
 			cfg.modes = []c38Mode{{kind: "close", after: 1}, {kind: "stall"}}
+		default:
+			// late answers: calls time out and the same goroutine calls again at once, while the
+			// answers to the timed-out requests are still arriving
+			cfg.name = "late"
+			cfg.maxConns = 1
+			cfg.modes = []c38Mode{{kind: "answer", delay: time.Duration(90+rng.Intn(60)) * time.Millisecond}}
 		}
-		n := 4 + rng.Intn(7)
-		for k := 0; k < n; k++ {
-			cl := c38Call{deadline: rng.Intn(4) != 0, viaTO: rng.Intn(2) == 0, timeout: timeouts[rng.Intn(len(timeouts))],
-				delay: time.Duration(rng.Intn(40)) * time.Millisecond}
-			if cfg.modes[0].kind == "refuse" && !cl.deadline {
-				cl.deadline = true // a Do call cannot end while every dial is refused
+		if cfg.name == "late" {
+			for c := 0; c < 2+rng.Intn(2); c++ {
+				var seq []c38Call
+				for k := 0; k < 3+rng.Intn(2); k++ {
+					seq = append(seq, c38Call{deadline: true, viaTO: rng.Intn(2) == 0, timeout: time.Duration(40+rng.Intn(40)) * time.Millisecond})
+				}
+				seq = append(seq, c38Call{deadline: true, timeout: 900 * time.Millisecond})
+				cfg.callers = append(cfg.callers, seq)
 			}
-			cfg.calls = append(cfg.calls, cl)
+		} else {
+			n := 4 + rng.Intn(7)
+			for k := 0; k < n; k++ {
+				cl := c38Call{deadline: rng.Intn(4) != 0, viaTO: rng.Intn(2) == 0, timeout: timeouts[rng.Intn(len(timeouts))],
+					delay: time.Duration(rng.Intn(40)) * time.Millisecond}
+				if cfg.modes[0].kind == "refuse" && !cl.deadline {
+					cl.deadline = true // a Do call cannot end while every dial is refused
+				}
+				seq := []c38Call{cl}
+				if cl.deadline && rng.Intn(2) == 0 { // a follow-up call from the same goroutine
+					seq = append(seq, c38Call{deadline: true, viaTO: rng.Intn(2) == 0, timeout: timeouts[rng.Intn(len(timeouts))]})
+				}
+				cfg.callers = append(cfg.callers, seq)
+			}
 		}
 		evs, key, detail, st := c38RunOne(i, cfg)
 		evals++
@@ -374,5 +458,267 @@ func TestVerifC38Pipeline(t *testing.T) {
 		extra[k] = v
 	}
 	vfStat(evals, evals, extra)
+	vfDone()
+}
+
+// TestVerifC38Tiny: EVERY deadline call returns by its deadline, also when the deadline is
+// (almost) over when the call starts: many callers with timeouts of 0 .. 200 us against a
+// stalled server, so that the deadline passes at every point of DoDeadline's entry path.
+func TestVerifC38Tiny(t *testing.T) {
+	vfOpen(t)
+	rng := vfRand()
+	rec := &c38Rec{txIDs: map[int]int{}, srvIDs: map[int]int{}}
+	nw := &c38Net{rec: rec, modes: []c38Mode{{kind: "stall"}}}
+	pcl := &PipelineClient{Addr: "pc.test:80", Dial: nw.dial, MaxConns: 1, MaxPendingRequests: 2,
+		Logger: c38Logger{}, NoDefaultUserAgentHeader: true}
+	tiny := []time.Duration{0, 1, 200, time.Microsecond, 2 * time.Microsecond, 5 * time.Microsecond, 10 * time.Microsecond,
+		20 * time.Microsecond, 50 * time.Microsecond, 100 * time.Microsecond, 200 * time.Microsecond}
+	workers, per := 8, vfEnvInt("VERIF_C38_TINY", 400)
+	type curT struct {
+		start   time.Time
+		timeout time.Duration
+		busy    bool
+		n       int
+	}
+	var mu sync.Mutex
+	cur := make([]curT, workers)
+	var viol, vdetail string
+	classes := map[string]int{}
+	var wg sync.WaitGroup
+	for w := 0; w < workers; w++ {
+		wg.Add(1)
+		wrng := rand.New(rand.NewSource(rng.Int63()))
+		go func(w int) {
+			defer wg.Done()
+			for i := 0; i < per; i++ {
+				to := tiny[wrng.Intn(len(tiny))]
+				var req Request
+				var resp Response
+				req.SetRequestURI("http://pc.test/c38/0")
+				mu.Lock()
+				cur[w] = curT{start: time.Now(), timeout: to, busy: true, n: i}
+				mu.Unlock()
+				var err error
+				func() {
+					defer func() {
+						if p := recover(); p != nil {
+							err = fmt.Errorf("PANIC: %v", p)
+						}
+					}()
+					if wrng.Intn(2) == 0 {
+						err = pcl.DoTimeout(&req, &resp, to)
+					} else {
+						err = pcl.DoDeadline(&req, &resp, time.Now().Add(to))
+					}
+				}()
+				mu.Lock()
+				d := time.Since(cur[w].start)
+				cur[w].busy = false
+				cl := c38Class(err)
+				if err != nil && strings.HasPrefix(err.Error(), "PANIC") {
+					cl = "panic"
+					if viol == "" {
+						viol, vdetail = "tiny:panic", fmt.Sprintf("a deadline call with timeout %v panicked: %v", to, err)
+					}
+				}
+				if d > to+c38Slack && viol == "" {
+					viol, vdetail = "tiny:late", fmt.Sprintf("a deadline call with timeout %v returned after %v (%s)", to, d, cl)
+				}
+				classes[cl]++
+				stop := viol != ""
+				mu.Unlock()
+				if stop {
+					return
+				}
+			}
+		}(w)
+	}
+	done := make(chan struct{})
+	go func() { wg.Wait(); close(done) }()
+	tick := time.NewTicker(100 * time.Millisecond)
+	defer tick.Stop()
+	hardStop := time.After(120 * time.Second)
+loop:
+	for {
+		select {
+		case <-done:
+			break loop
+		case <-hardStop:
+			vfInfra("C38 tiny: the driver did not finish in 120 s (machine overload?)")
+			break loop
+		case <-tick.C:
+			mu.Lock()
+			for w := range cur {
+				if cur[w].busy && time.Since(cur[w].start) > cur[w].timeout+c38Slack+2*time.Second && viol == "" {
+					viol, vdetail = "tiny:no-return", fmt.Sprintf("a deadline call with timeout %v against a stalled server has not returned after %v",
+						cur[w].timeout, time.Since(cur[w].start).Round(time.Millisecond))
+				}
+			}
+			v := viol
+			mu.Unlock()
+			if v == "tiny:no-return" {
+				break loop // the stuck goroutines are abandoned
+			}
+		}
+	}
+	nw.finish()
+	mu.Lock()
+	if viol != "" {
+		vfViol("direct:"+viol, vdetail, vfRec{"classes": classes})
+	}
+	n := 0
+	for _, c := range classes {
+		n += c
+	}
+	st := vfRec{}
+	for k, v := range classes {
+		st["tiny_"+k] = v
+	}
+	mu.Unlock()
+	vfStat(n, n, st)
+	vfDone()
+}
+
+// c38HeldConn lets the scenario hold one Write of the client (the request whose line carries
+// holdTag) until release is closed; afterwards every Write "succeeds" without reaching anybody
+// - the way a kernel accepts bytes for a connection the peer has already reset.
+type c38HeldConn struct {
+	net.Conn
+	holdTag []byte
+	reached chan struct{}
+	release chan struct{}
+	once    sync.Once
+	mu      sync.Mutex
+	hole    bool
+}
+
+func (c *c38HeldConn) Write(p []byte) (int, error) {
+	c.mu.Lock()
+	hole := c.hole
+	c.mu.Unlock()
+	if hole {
+		return len(p), nil
+	}
+	if bytes.Contains(p, c.holdTag) {
+		c.once.Do(func() { close(c.reached) })
+		<-c.release
+		c.mu.Lock()
+		c.hole = true
+		c.mu.Unlock()
+		return len(p), nil
+	}
+	return c.Conn.Write(p)
+}
+
+// TestVerifC38HeldWrite (directed): the server resets the connection exactly while the writer
+// is between taking request B from chW and putting it to chR (its Write is held), then the
+// Write completes; request C follows on the next connection, whose server echoes request ids.
+// B's request never reached a server: B may end with a connection error or ErrTimeout, never
+// with nil, and C must get its own response.
+func TestVerifC38HeldWrite(t *testing.T) {
+	vfOpen(t)
+	rounds := vfEnvInt("VERIF_C38_HELD", 3)
+	evals, inconclusive := 0, 0
+	for r := 0; r < rounds; r++ {
+		rec := &c38Rec{txIDs: map[int]int{}, srvIDs: map[int]int{}}
+		nw := &c38Net{rec: rec, modes: []c38Mode{{kind: "stall"}, {kind: "answer"}}}
+		var held *c38HeldConn
+		var hmu sync.Mutex
+		ndial := 0
+		dial := func(addr string) (net.Conn, error) {
+			c, err := nw.dial(addr)
+			if err != nil {
+				return nil, err
+			}
+			hmu.Lock()
+			defer hmu.Unlock()
+			ndial++
+			if ndial == 1 {
+				held = &c38HeldConn{Conn: c, holdTag: []byte(" /c38/2 "), reached: make(chan struct{}), release: make(chan struct{})}
+				return held, nil
+			}
+			return c, nil
+		}
+		pcl := &PipelineClient{Addr: "pc.test:80", Dial: dial, MaxConns: 1, MaxPendingRequests: 4,
+			Logger: c38Logger{}, NoDefaultUserAgentHeader: true}
+		outs := make([]c38Out, 3)
+		var wg sync.WaitGroup
+		call := func(id int, cl c38Call) {
+			wg.Add(1)
+			go func() { defer wg.Done(); c38DoCall(pcl, rec, id, cl, outs) }()
+		}
+		waitFor := func(cond func() bool, d time.Duration) bool {
+			end := time.Now().Add(d)
+			for time.Now().Before(end) {
+				if cond() {
+					return true
+				}
+				time.Sleep(time.Millisecond)
+			}
+			return cond()
+		}
+		// A: reaches the (stalling) server, the reader waits for its response
+		call(1, c38Call{deadline: true, timeout: 4 * time.Second})
+		okA := waitFor(func() bool { rec.mu.Lock(); defer rec.mu.Unlock(); return rec.srvIDs[1] > 0 }, 3*time.Second)
+		// B: large body, its Write is held
+		call(2, c38Call{deadline: true, timeout: 4 * time.Second, bigBody: 64 << 10})
+		okB := false
+		if okA {
+			hmu.Lock()
+			h := held
+			hmu.Unlock()
+			select {
+			case <-h.reached:
+				okB = true
+			case <-time.After(3 * time.Second):
+			}
+		}
+		if !okA || !okB {
+			inconclusive++
+			if held != nil {
+				close(held.release)
+			}
+			nw.finish()
+			wg.Wait()
+			continue
+		}
+		// the server resets the connection: the reader fails; then the held Write completes
+		nw.mu.Lock()
+		srv := nw.servers
+		nw.servers = nil
+		nw.mu.Unlock()
+		for _, c := range srv {
+			c.Close()
+		}
+		waitFor(func() bool { rec.mu.Lock(); defer rec.mu.Unlock(); return outs[0].returned }, 2*time.Second)
+		time.Sleep(20 * time.Millisecond)
+		close(held.release)
+		time.Sleep(50 * time.Millisecond)
+		// C: on the next connection, answered with its own id
+		call(3, c38Call{deadline: true, timeout: 1500 * time.Millisecond})
+		wg.Wait()
+		nw.finish()
+		evals++
+		cfg := c38Cfg{p: 4, maxConns: 1, modes: nw.modes, name: "held-write"}
+		stats := map[string]int{}
+		rec.mu.Lock()
+		key, detail := c38Judge(cfg, rec, outs, stats)
+		if key == "" && outs[1].class == "ok" {
+			key, detail = "foreign-response "+cfg.String(), fmt.Sprintf("call 2 returned nil (body %q) although its request never reached a server", outs[1].body)
+		}
+		if key == "" && outs[2].class != "ok" {
+			key, detail = "stale-work-steals-response "+cfg.String(),
+				fmt.Sprintf("call 3 on the fresh connection ended with %s %q although the server answered its request (received %d time(s))", outs[2].class, outs[2].err, rec.srvIDs[3])
+		}
+		res := fmt.Sprintf("A=%s B=%s C=%s", outs[0].class, outs[1].class, outs[2].class)
+		rec.mu.Unlock()
+		if key != "" {
+			vfViol("direct:"+key, detail, vfRec{"round": r, "results": res})
+		}
+		if r == 0 {
+			vfSample(vfRec{"scenario": "held-write", "results": res})
+		}
+	}
+	vfStat(evals, evals, vfRec{"held_write_rounds": evals, "held_write_inconclusive": inconclusive})
 	vfDone()
 }
